@@ -9,6 +9,7 @@
 //	GENP[T](ps){…}GENP { … }                   { return ref.New(func(ʏ *ref.Y[T]) { func(ps) { … }(names of ps) }) }
 //	                  (the body is the top level of a function whose parameters are ps again, so that a
 //	                   redeclaration `a, b := …` of a parameter keeps Go's meaning in the reference)
+//	ITER2[            co2.Iter[                ref.Iter[      (the API imported a second time under the name co2)
 //	YIELD(            Yield( / co.Yield(       ʏ.Yield(
 //	YFROM(            YieldFrom(               ʏ.From(
 //	YIELDT[T](        Yield[T]( / co.Yield[T]( ʏ.Yield(      (explicit instantiation of the API functions)
@@ -104,6 +105,9 @@ func Co(neutral, prefix string, st Style) string {
 	s := neutral
 	for i := 0; i < len(s); {
 		switch {
+		case strings.HasPrefix(s[i:], "ITER2["):
+			b.WriteString("co2.Iter[")
+			i += 6
 		case strings.HasPrefix(s[i:], "ITER["):
 			b.WriteString(p + "Iter[")
 			i += 5
@@ -179,6 +183,9 @@ func Ref(neutral, prefix string) string {
 	s := neutral
 	for i := 0; i < len(s); {
 		switch {
+		case strings.HasPrefix(s[i:], "ITER2["):
+			b.WriteString("ref.Iter[")
+			i += 6
 		case strings.HasPrefix(s[i:], "ITER["):
 			b.WriteString("ref.Iter[")
 			i += 5
